@@ -99,7 +99,9 @@ func genC10(seed uint64, run int, tier string) Scenario {
 	k := pick(r, 0, 0, 1, 1, 2, 3)
 	type stage struct{ kind, prompt string }
 	var round []stage
-	userPrompt := pick(r, "Username: ", "username:", "login: ", "Login:", host+" login: ", "User Access Verification Username: ")
+	userPrompt := pick(r, "Username: ", "username:", "login: ", "Login:", host+" login: ", "User Access Verification Username: ",
+		// (as some devices do: a remark behind the prompt, on the same line)
+		"Username: Kerberos:\tNo default realm defined for Kerberos!"+nl)
 	passPrompt := pick(r, "Password: ", "password:", "Password:")
 	if sc.Auth == "telnet" {
 		switch r.IntN(6) {
